@@ -357,6 +357,45 @@ def r1_no_dropped_results(facts, rep):
 COMPLETE_IO = "nomt::io::CompleteIo"
 
 
+def _overwritten_unchecked(body, ui, d, def_bb, def_idx, depth=0):
+    """the local `d`, assigned at (def_bb, def_idx), can be assigned again (there or elsewhere) before anything looked at it"""
+    uses = []
+    landing = set()
+    for (kind, ub, ix, _pl, _dest, _obj) in ui.of(d):
+        if kind == "drop":
+            continue
+        uses.append((ub, len(body.stmts(ub)) if kind in ("arg", "switch") else ix))
+        if kind == "assign" and not _pl.get("p") and _dest is not None and not _dest.get("p") and _dest["l"] != 0 and depth < 3 and _dest["l"] != d:
+            # moved on whole (`io_result = move tmp`): the question is asked of the place it lands in
+            if _overwritten_unchecked(body, ui, _dest["l"], ub, ix, depth + 1):
+                return True
+            landing.add(_dest["l"])
+    if any(ub == def_bb and ix > def_idx for (ub, ix) in uses):
+        return False  # looked at right after it was assigned
+    use_blocks = {ub for (ub, _ix) in uses}
+    # a test of the variable the value would land in (`if first.is_ok() { first = r }`) counts: on the edge that skips the
+    # move an earlier error is already held
+    seen_l, work = set(), list(landing)
+    while work:
+        l2 = work.pop()
+        if l2 in seen_l or len(seen_l) > 6:
+            continue
+        seen_l.add(l2)
+        for (kind, ub, _ix, _pl, _dest, _obj) in ui.of(l2):
+            if kind == "drop":
+                continue
+            use_blocks.add(ub)
+            if kind == "assign" and not _pl.get("p") and _dest is not None and not _dest.get("p") and _dest["l"] != 0:
+                work.append(_dest["l"])
+    def_blocks = {x[0] for x in body.defs().get(d, [])} - use_blocks
+    if def_bb in use_blocks:
+        def_blocks.discard(def_bb)  # re-entering the block looks at the old value before it is replaced
+    else:
+        def_blocks.add(def_bb)
+    reach = body.reachable(body.succ(def_bb), set(body.ok_removed()) | use_blocks)
+    return bool(reach & def_blocks)
+
+
 def r2_completions_checked(facts, rep):
     """every CompleteIo value has its `.result` read and consumed on every success path, or the
     whole value is handed on."""
@@ -385,6 +424,9 @@ def r2_completions_checked(facts, rep):
                     if kind in ("assign", "ref") and dest is not None and not dest.get("p") and dest["l"] != 0:
                         c, _r, _d = consumption(body, ui, dest["l"])
                         ok = c
+                        if ok and kind == "assign" and _overwritten_unchecked(body, ui, dest["l"], b, i):
+                            # `last = recv().result` in a loop, looked at after the loop: only the last result counts
+                            ok = False
                     elif kind in ("arg",):
                         callee = obj.get("callee") or ""
                         ok = callee not in DISCARDERS
